@@ -914,3 +914,44 @@ Theorem model_validation_cost_refuted :
     length tab = 19%nat /\ list_sum (map rw_nodes tab) = 55%nat /\
     fst (model_cost 100 [tab] 100000) = HBudget.
 Proof. exists (diamond 18). repeat split; vm_compute; reflexivity. Qed.
+
+(* ================================================================== *)
+(* 6. recovery of panics raised below the handlers                      *)
+(* ================================================================== *)
+
+(* RecoverFromPanic never panics itself, whatever the panic value *)
+Theorem recover_never_repanics (v : pvalue) : recover_to_error v <> Panic.
+Proof. discriminate. Qed.
+
+(* the r.(error) variant does, exactly for the values that are not errors *)
+Theorem recover_assert_variant_repanics_iff (v : pvalue) :
+  recover_to_error_assert v = Panic <-> implements_error v = false.
+Proof. unfold recover_to_error_assert. destruct (implements_error v); split; congruence. Qed.
+
+Theorem recover_never_repanics_assert_variant_refuted : exists v, recover_to_error_assert v = Panic.
+Proof. exists PVString. reflexivity. Qed.
+
+(* a pipeline worker turns every panic into an error ... *)
+Theorem pipeline_worker_captures_every_panic (v : pvalue) : fate_of SPipeline v = FError.
+Proof. reflexivity. Qed.
+
+(* ... with the variant, a string or struct panic kills the process *)
+Theorem pipeline_worker_captures_every_panic_assert_variant_refuted :
+  exists v, fate_of_assert_variant SPipeline v = FDies.
+Proof. exists PVString. reflexivity. Qed.
+
+(* THE FULL-STRENGTH STATEMENT: no panic below the handlers kills the process.  As coded it holds
+   exactly under the handler, a panics.Try and a pipeline worker; it is refuted for the goroutines
+   of ListObjectsQuery.evaluate / reverse expand (and any goroutine without its own recovery) *)
+Theorem process_survives_iff (s : psite) (v : pvalue) :
+  fate_of s v <> FDies <-> (s <> SEvaluate /\ s <> SOther).
+Proof.
+  destruct s; cbn; split.
+  all: try (intros _; split; discriminate).
+  all: try (intros _; discriminate).
+  all: try (intro H; exfalso; apply H; reflexivity).
+  all: intros [H1 H2] _; first [apply H1; reflexivity | apply H2; reflexivity].
+Qed.
+
+Theorem process_survives_refuted : exists s v, fate_of s v = FDies.
+Proof. exists SEvaluate, PVError. reflexivity. Qed.
